@@ -35,7 +35,19 @@ class Collab(object):
 
 # ---------------------------------------------------------------- formats
 # name -> (listed exception names, variants)
+def ambient_state():
+    """What user code may reasonably take for granted about the interpreter around a validation."""
+    import decimal
+    import locale
+    import os
+    import warnings
+    ctx = decimal.getcontext()
+    return (ctx.prec, ctx.rounding, tuple(sorted(str(k) for k, v in ctx.traps.items() if v)),
+            len(warnings.filters), os.getcwd(), locale.getlocale(), os.environ.get("TZ"))
+
+
 FORMATS = {
+    "sim-ambient": (),
     "sim-evenlen": ("ValueError",),
     "sim-lower": (),
     "sim-noz": ("ValueError", "KeyError"),
@@ -45,7 +57,17 @@ FORMATS = {
 def make_format(name, variant, collab):
     site = "format:" + name
 
-    if name == "sim-evenlen":
+    if name == "sim-ambient":
+        # a user checker that relies on the ambient interpreter state (decimal context, warning filters, cwd,
+        # locale) being what it was when the checker was set up: it rejects every string if that state changed
+        base = ambient_state()
+
+        def fn(instance):
+            collab.hit(site, instance)
+            if not isinstance(instance, str):
+                return True
+            return ambient_state() == base
+    elif name == "sim-evenlen":
         def fn(instance):
             collab.hit(site, instance)
             if not isinstance(instance, str):
